@@ -141,6 +141,42 @@ static void run_ops(fdesc_t* me) {
       int r = fiber_join(t->f, &res);
       vrt_api("\"f\":\"%s\",\"ph\":\"ret\",\"op\":\"join\",\"o\":\"%s\",\"r\":%d,\"v\":\"%s\"", f, op->a1, r,
               vrt_name_of(res));
+    } else if (!strcmp(op->op, "tryjoin")) {
+      fdesc_t* t = fd_by_name(op->a1);
+      void* res = NULL;
+      vrt_api("\"f\":\"%s\",\"ph\":\"call\",\"op\":\"tryjoin\",\"o\":\"%s\"", f, op->a1);
+      int r = fiber_tryjoin(t->f, &res);
+      vrt_api("\"f\":\"%s\",\"ph\":\"ret\",\"op\":\"tryjoin\",\"o\":\"%s\",\"r\":%d,\"v\":\"%s\"", f, op->a1, r,
+              vrt_name_of(res));
+    } else if (!strcmp(op->op, "awaitjoining")) {
+      fdesc_t* t = fd_by_name(op->a1);
+      while (t->f->detach_state != FIBER_DETACH_WAIT_TO_JOIN || !t->f->join_info) fiber_yield();
+    } else if (!strcmp(op->op, "tryjoinloop")) {
+      fdesc_t* t = fd_by_name(op->a1);
+      void* res = NULL;
+      int r = 0;
+      for (int k = 0; k < 3 && !r; k++) {
+        vrt_api("\"f\":\"%s\",\"ph\":\"call\",\"op\":\"tryjoin\",\"o\":\"%s\"", f, op->a1);
+        r = fiber_tryjoin(t->f, &res);
+        vrt_api("\"f\":\"%s\",\"ph\":\"ret\",\"op\":\"tryjoin\",\"o\":\"%s\",\"r\":%d,\"v\":\"%s\"", f, op->a1, r,
+                vrt_name_of(res));
+        if (!r) {
+          vrt_api("\"f\":\"%s\",\"ph\":\"call\",\"op\":\"yield\"", f);
+          fiber_yield();
+          vrt_api("\"f\":\"%s\",\"ph\":\"ret\",\"op\":\"yield\"", f);
+        }
+      }
+      if (!r) {
+        vrt_api("\"f\":\"%s\",\"ph\":\"call\",\"op\":\"join\",\"o\":\"%s\"", f, op->a1);
+        r = fiber_join(t->f, &res);
+        vrt_api("\"f\":\"%s\",\"ph\":\"ret\",\"op\":\"join\",\"o\":\"%s\",\"r\":%d,\"v\":\"%s\"", f, op->a1, r,
+                vrt_name_of(res));
+      }
+    } else if (!strcmp(op->op, "detach")) {
+      fdesc_t* t = fd_by_name(op->a1);
+      vrt_api("\"f\":\"%s\",\"ph\":\"call\",\"op\":\"detach\",\"o\":\"%s\"", f, op->a1);
+      int r = fiber_detach(t->f);
+      vrt_api("\"f\":\"%s\",\"ph\":\"ret\",\"op\":\"detach\",\"o\":\"%s\",\"r\":%d", f, op->a1, r);
     } else if (!drv_ext_op(f, op->op, op->a1, op->a2)) {
       fprintf(stderr, "driver: unknown op %s\n", op->op);
       exit(64);
